@@ -586,6 +586,27 @@ func isLoadOfGlobal(v ssa.Value, name string) bool {
 		}
 		break
 	}
+	// a destination that defaults to the global: a merge whose operands are the global and fields that the
+	// reference tree does not have (a per-node writer set by a new setter, nil unless the program uses it)
+	if phi, isPhi := v.(*ssa.Phi); isPhi {
+		hasGlobal := false
+		for _, leaf := range phiLeaves(phi, map[ssa.Value]bool{}) {
+			switch {
+			case isLoadOfGlobal(leaf, name):
+				hasGlobal = true
+			default:
+				ld, ok := leaf.(*ssa.UnOp)
+				if !ok || ld.Op != token.MUL {
+					return false
+				}
+				fa, ok := ld.X.(*ssa.FieldAddr)
+				if !ok || isBaselineField(fieldOfAddr(fa)) {
+					return false
+				}
+			}
+		}
+		return hasGlobal
+	}
 	u, ok := v.(*ssa.UnOp)
 	if !ok || u.Op != token.MUL {
 		return false
@@ -639,7 +660,7 @@ func rInherit(id string) func(w *World, r *Report) {
 				}
 				// only reads
 				for _, ref := range *fa.Referrers() {
-					if u, ok := ref.(*ssa.UnOp); ok && u.Op == token.MUL {
+					if u, ok := ref.(*ssa.UnOp); ok && u.Op == token.MUL && isBaselineField(f) {
 						cfgFields[f] = true
 					}
 				}
